@@ -1,6 +1,7 @@
 import Driver.Util
 import LiquidVerif.Model.Lex
 import LiquidVerif.Model.LexRender
+import LiquidVerif.Model.LexScan
 open Lean LiquidVerif.Lex
 
 namespace Driver.C10
@@ -70,6 +71,7 @@ def withInput (args : List Json) (f : Delims → List Piece → Json) : Json :=
 def handleMatch (args : List Json) : Json :=
   withInput args fun d ps =>
     Json.mkObj [("src", js (assemble d ps)), ("wf", Json.bool (srcWf d ps)),
+                ("scan_eq", Json.bool (scan d (assemble d ps) == matchesOf d 0 ps)),
                 ("matches", jarr ((matchesOf d 0 ps).map matchJson))]
 
 /-- `["c10_tokens", delims, pieces]` → the token list `[kind, value, start]` or the lexer error -/
@@ -106,6 +108,20 @@ def handleAll (args : List Json) : Json :=
   Json.mkObj [("match", handleMatch args), ("tokens", handleTokens args), ("nodes", handleNodes args),
               ("render", handleRender args)]
 
+/-- `["c10_scan", delims, source]` → what the string-level scanner finds in an arbitrary string -/
+def handleScan (args : List Json) : Json :=
+  match args with
+  | [d, src] =>
+    match parseDelims d, str? src with
+    | some d, some src =>
+      let ms := scan d src
+      let toks := match tokenize {} ms with
+        | .error e => errJson e
+        | .ok ts => Json.mkObj [("tokens", jarr (ts.map fun t => jarr [jstr (tkindName t.kind), js t.value, jnat t.start]))]
+      Json.mkObj [("matches", jarr (ms.map matchJson)), ("tokens", toks)]
+    | _, _ => jerr "bad-args"
+  | _ => jerr "bad-args"
+
 /-- `["c10_spaces", lo, hi]` → code points in `[lo, hi)` that the model treats as whitespace -/
 def handleSpaces (args : List Json) : Json :=
   match args with
@@ -125,7 +141,7 @@ def handleStrip (args : List Json) : Json :=
   | _ => jerr "bad-args"
 
 def commands : List (String × (List Lean.Json → Lean.Json)) :=
-  [("c10_match", handleMatch), ("c10_tokens", handleTokens), ("c10_render", handleRender), ("c10_nodes", handleNodes), ("c10_all", handleAll),
+  [("c10_match", handleMatch), ("c10_tokens", handleTokens), ("c10_render", handleRender), ("c10_nodes", handleNodes), ("c10_all", handleAll), ("c10_scan", handleScan),
    ("c10_spaces", handleSpaces), ("c10_strip", handleStrip)]
 
 end Driver.C10
